@@ -104,3 +104,11 @@ def segment_rule_violation(topo, lam, lo=1 / 200.0, hi=1 / 10.0, seg_r=8.0):
         if l.min() < seg_r * o['r'] * (1 - 1e-6):
             return 'tapered segment shorter than 8 radii'
     return None
+
+
+def net_power_ok(m, rel=1e-9):
+    """gains are normalised with the net power Re(sum V I*)/2.  For an almost purely reactive feed that number is the
+    small difference of large terms and carries a relative rounding error of 1e-16 * apparent / net power; relations
+    that compare gains of two different solves need it to be well defined"""
+    app = sum(0.5 * abs(s.voltage * s.current) for s in m.sources)
+    return m.power > rel * app
